@@ -7,6 +7,7 @@ import (
 	"crypto/x509"
 	"errors"
 	"fmt"
+	"math/big"
 	"math/rand/v2"
 	"runtime"
 	"strings"
@@ -186,11 +187,26 @@ func NewSP(now time.Time, store ...*sim.Cert) (*saml2.SAMLServiceProvider, *SpyC
 type RSAKeyStore struct {
 	C     *sim.Cert
 	Calls atomic.Int64
+	// Raw, when set, is handed out instead of the fixed key: the same key assembled from its components, without
+	// the precomputed CRT values (what a loader of a foreign key format produces). It belongs to the caller.
+	Raw *rsa.PrivateKey
 }
 
 func (k *RSAKeyStore) GetKeyPair() (*rsa.PrivateKey, []byte, error) {
 	k.Calls.Add(1)
+	if k.Raw != nil {
+		return k.Raw, k.C.DER, nil
+	}
 	return k.C.Key.RSA(), k.C.DER, nil
+}
+
+// BareRSA returns a copy of k without precomputed values.
+func BareRSA(k *rsa.PrivateKey) *rsa.PrivateKey {
+	c := &rsa.PrivateKey{PublicKey: rsa.PublicKey{N: new(big.Int).Set(k.N), E: k.E}, D: new(big.Int).Set(k.D)}
+	for _, p := range k.Primes {
+		c.Primes = append(c.Primes, new(big.Int).Set(p))
+	}
+	return c
 }
 
 // ErrClass maps an error to a coarse, text-free class.
